@@ -78,6 +78,9 @@ func c13Random(r *fw.Rand) c13Model {
 			}
 			for m := 0; m < r.Range(1, 3); m++ {
 				li := astisub.LineItem{Text: fmt.Sprintf("w%d%d%d", k, l, m)}
+				if (k+l+m)%4 == 3 {
+					li.StartAt = time.Duration(k)*time.Second + time.Duration(m+1)*100*time.Millisecond // an inline timestamp
+				}
 				if ns > 0 && r.P(1, 4) {
 					li.Style = styles[r.Intn(ns)]
 					d += "/" + li.Style.ID
@@ -361,7 +364,7 @@ func c13RemoveStyling(m c13Model, key uint64) fw.Outcome {
 			}
 			for n, li := range line.Items {
 				if li.Text != b.runs[l][n].text || li.StartAt != b.runs[l][n].at {
-					return fw.Bad(key, m.desc, "RemoveStyling changed the text of cue %d line %d run %d", k, l, n)
+					return fw.Bad(key, m.desc, "RemoveStyling changed the text or the inline timestamp of cue %d line %d run %d: %q at %v, was %q at %v", k, l, n, li.Text, li.StartAt, b.runs[l][n].text, b.runs[l][n].at)
 				}
 				if li.Style != nil || li.InlineStyle != nil {
 					return fw.Bad(key, m.desc, "RemoveStyling on {%s}: cue %d line %d run %d still has a style or inline attributes", m.desc, k, l, n)
@@ -465,6 +468,23 @@ func c13Parsed(r *fw.Rand) (c13Model, bool) {
 	return c13Model{got, "parsed from " + w.name + ": " + m.desc}, true
 }
 
+// c13Document obtains a graph by parsing a ground-truth document of the codec checks (WebVTT with STYLE blocks and
+// regions, TTML with style chains, SSA, STL, teletext): whatever the readers build, only what a cue can reach stays
+func c13Document(r *fw.Rand) (c13Model, bool) {
+	format := fw.Pick(r, []string{"webvtt", "webvtt", "ttml", "ttml", "ssa", "stl", "srt", "teletext"})
+	d := genDoc(r, format, false)
+	var got *astisub.Subtitles
+	var err error
+	if p := guard(func() { got, err = d.Read(bytes.NewReader(d.Data)) }); p != "" || err != nil || got == nil || len(got.Items) == 0 {
+		return c13Model{}, false
+	}
+	doc := string(d.Data)
+	if format == "stl" || format == "teletext" {
+		doc = fmt.Sprintf("%x", d.Data)
+	}
+	return c13Model{got, fmt.Sprintf("parsed from a %s document (styles {%s} regions {%s}): %s", format, keysOf(got.Styles), keysOf(got.Regions), trunc(doc, 1500))}, true
+}
+
 func c13CLI(c *fw.Ctx) fw.Outcome {
 	m := c13Random(c.R)
 	if len(m.sub.Items) == 0 {
@@ -527,6 +547,9 @@ func init() {
 			build := func() (c13Model, bool) {
 				r := fw.NewRand(seed)
 				if c.Idx%3 == 2 {
+					if c.Idx%2 == 0 {
+						return c13Document(r)
+					}
 					return c13Parsed(r)
 				}
 				if c.Idx%8 == 5 {
